@@ -146,6 +146,8 @@ def run(spec, seed, attack=None, flood=None, probes=None, reconnect=None):
             creds = None
             if spec.key:
                 creds, _ = ps.make_credentials(s, random.Random(seed * 31 + i), s["kerberos.key_size"], pid=1000 + i, server_key=spec.key)
+            if c.get("start"):
+                await anyio.sleep(quant(c["start"]))          # a peer that arrives later (the same in both runs)
             try:
                 async with prudp.connect(s, SERVER[0], SERVER[1], pt(c["vport"])[0], pt(c["vport"])[1], credentials=creds) as client:
                     out.client_addr[i] = client.local_address()
